@@ -201,6 +201,9 @@ def judge(ctx, c, r, bad, ntypes):
         elif g != grid[q]:
             rep["rank"], rep["got"], rep["expected"] = q, list(g), list(grid[q])
             viol("grid", "rank %d: position (intrarank/intrasize/interrank/intersize) %s, expected %s" % (q, g, grid[q]))
+        if o.get("det") != "1":
+            rep["rank"] = q
+            viol("detach", "rank %d: sc_mpi_comm_get_node_comms still returns communicators after sc_mpi_comm_detach_node_comms" % q)
         if int(o["type"]) != flavour:
             viol("type", "rank %d: sc_shmem_get_type returns %s after set_type (%d)" % (q, o["type"], flavour))
         ag, pre, cp = decode(d, hb(o["ag"])), decode(d, hb(o["pre"])), decode(d, hb(o["cp"]))
@@ -250,13 +253,22 @@ def rank_calls(trace, P):
         world = intra = inter = None
         phase = None
         d = {}
+        made = set()          # communicators created by attach on this rank and not freed yet
         for e in sorted(by[q], key=lambda e: e.get("s", 0)):
             f = e.get("f")
             c = e.get("c")
             if f == "note":
                 phase = e.get("text")
                 d[phase] = []
+                if phase == "mA":
+                    d["_life_attach"] = len(made)
+                if phase == "free":
+                    d["_life_detach"] = len(made)
                 continue
+            if world is not None and f in ("MPI_Comm_split", "MPI_Comm_split_type") and e.get("newc", -1) not in (-1, None):
+                made.add(e.get("newc"))
+            if f == "MPI_Comm_free" and c in made:
+                made.discard(c)
             if f == "MPI_Comm_dup" and world is None:
                 world = e.get("newc")
             elif f in ("MPI_Comm_split", "MPI_Comm_split_type"):
@@ -264,7 +276,7 @@ def rank_calls(trace, P):
                     intra = e.get("newc")
                 elif inter is None:
                     inter = e.get("newc")
-            if phase is None or phase == "end":
+            if phase is None or phase in ("end", "free"):
                 continue
             if f == "MPI_Allgather":
                 code = 1 if c == world else (4 if c == inter else 91)
@@ -353,6 +365,9 @@ def run(ctx):
                     dis.append("allgather model %s impl %s" % (m.get("ag"), hxl(decode(d, hb(o["ag"])))))
                 if hxl(decode(d, hb(o["pre"]))) != m.get("pre"):
                     dis.append("prefix model %s impl %s" % (m.get("pre"), hxl(decode(d, hb(o["pre"])))))
+                life = "%s/%s" % (tr[q].get("_life_attach", "?"), tr[q].get("_life_detach", "?"))
+                if life != m.get("life"):
+                    dis.append("communicators alive after attach / after detach: model %s impl %s" % (m.get("life"), life))
                 mc = (m.get("calls", ";;;;").split(";") + [""] * 5)[:5]
                 expect = {"mA": mc[0], "mB": mc[0], "mC": mc[0], "ag": mc[1], "pre": mc[2], "cp": mc[3], "w1": mc[3], "w2": mc[3],
                           "fC": mc[4], "fB": mc[4], "fA": mc[4]}
